@@ -1134,15 +1134,17 @@ class Molecule(UnitsManaged, Saveable, OpenSystem):
         
         if self.check_temperature_consistent():
         
-            try:
-                egcf =  self.get_transition_environment([0,1])
-            except:
-                egcf = None
-        
-            if egcf is None:
-                return 0.0
-            else:
-                return egcf.get_temperature()
+            # the temperature of the first environment found, whichever 
+            # transition it belongs to (they were checked to agree)
+            for bath in self.egcf:
+                if bath is not None:
+                    return bath.get_temperature()
+
+            # environments given through a matrix of correlation functions
+            if self._is_mapped_on_egcf_matrix:
+                return self.egcf_matrix.get_temperature()
+
+            return 0.0
                 
         else:
             
